@@ -2690,6 +2690,7 @@ class AsyncIOBackend(AsyncBackend):
                 task = cast(asyncio.Task, current_task())
                 _task_states[task] = TaskState(None, scope)
                 scope._tasks.add(task)
+                scope._restart_cancellation()
             try:
                 return await func(*args)
             except CancelledError as exc:
